@@ -184,13 +184,16 @@ func (d *devWorld) poll(ch *kernel.Chooser) string {
 	if ch.Bool(1, 10) {
 		code, codeKind = "unknown-"+m.code, "unknown"
 	}
-	timeoutFault := ch.Bool(1, 10)
+	timeoutFault := ch.Bool(1, 8)
 	if timeoutFault {
 		fired := false
+		// either the request's own deadline passes while the storage stalls, or the storage gives up earlier on its
+		// own and says so with an error that wraps context.DeadlineExceeded
+		kind := ch.Pick(world.FaultTimeout, world.FaultTimeoutFast)
 		w.Store.Inject = func(n int, method string, rid int) string {
 			if method == "GetDeviceAuthorizatonState" && !fired {
 				fired = true
-				return world.FaultTimeout
+				return kind
 			}
 			return ""
 		}
@@ -202,7 +205,7 @@ func (d *devWorld) poll(ch *kernel.Chooser) string {
 	if panicProbe(d.o, r) || r.Err != nil {
 		return desc
 	}
-	if timeoutFault && w.Store.FaultsFired[world.FaultTimeout] > 0 {
+	if timeoutFault && w.Store.FaultsFired[world.FaultTimeout]+w.Store.FaultsFired[world.FaultTimeoutFast] > 0 {
 		d.o.Fault("storage-timeout")
 	}
 	tr, ok := isTokenSuccess(r)
